@@ -106,6 +106,58 @@ theorem step_refines (s : Stk) (op : Op) :
       | none =>
         by_cases hw : w = some (r.length + 1) <;> simp [step, specStep, vecPop, abs, hs, hw]
       | some lu => obtain ⟨l, u⟩ := lu; simp [step, specStep, vecPop, abs, hs]
+  | cEval =>
+    rcases List.eq_nil_or_concat s with h | ⟨r, p, h⟩ <;> subst h <;>
+      simp [step, specStep, vecPop, abs]
+  | cFrame need takes puts w =>
+    have htake : ∀ h, h ≤ s.length → abs (s.take h) = (abs s).drop (s.length - h) := by
+      intro h _; simp [abs, List.reverse_take]
+    have hcanon : abs (frameCanon s takes puts).1 = (specFrameCanon (abs s) takes puts).1 ∧
+        (frameCanon s takes puts).2 = (specFrameCanon (abs s) takes puts).2 := by
+      by_cases ht : takes ≤ s.length
+      · simp only [frameCanon, specFrameCanon, and_true]
+        rw [show abs (s.take (s.length - takes) ++ List.replicate puts []) =
+          (List.replicate puts ([] : Pop)).reverse ++ abs (s.take (s.length - takes)) by simp [abs]]
+        rw [htake _ (by omega), List.reverse_replicate]
+        congr 2; omega
+      · have h0 : s.length - takes = 0 := by omega
+        simp only [frameCanon, specFrameCanon, and_true, h0, List.take_zero, List.nil_append]
+        rw [List.drop_of_length_le (by simp [abs]; omega)]
+        simp [abs]
+    simp only [step, specStep, abs_length]
+    by_cases hf : frameFits s.length need takes = true
+    · have ht : takes ≤ s.length := by simp [frameFits] at hf; exact hf.2
+      simp only [hf, if_true]
+      cases w with
+      | none => exact hcanon
+      | some w =>
+        cases w with
+        | ok new =>
+          by_cases hl : new.length = puts
+          · simp only [hl, if_true, and_true]
+            rw [show abs (s.take (s.length - takes) ++ new.reverse) = new ++ abs (s.take (s.length - takes)) by
+              simp [abs]]
+            rw [htake _ (by omega)]
+            congr 2; omega
+          · simp only [hl, if_false]; exact hcanon
+        | fail pn h =>
+          by_cases hh : s.length - takes ≤ h ∧ h ≤ s.length
+          · dsimp only; rw [if_pos hh, if_pos hh]; cases pn <;> exact ⟨htake h hh.2, rfl⟩
+          · dsimp only; rw [if_neg hh, if_neg hh]; exact hcanon
+    · have hf' : frameFits s.length need takes = false := by simpa using hf
+      simp only [hf', Bool.false_eq_true, if_false]
+      cases w with
+      | none => simp
+      | some w =>
+        cases w with
+        | ok new => simp
+        | fail pn h =>
+          cases pn with
+          | false => simp
+          | true =>
+            by_cases hh : s.length - takes ≤ h ∧ h ≤ s.length
+            · dsimp only; rw [if_pos hh, if_pos hh]; exact ⟨htake h hh.2, rfl⟩
+            · dsimp only; rw [if_neg hh, if_neg hh]; exact ⟨rfl, rfl⟩
 
 /-- `k`-fold application. -/
 def iter {α : Type} (f : α → α) : Nat → α → α
